@@ -220,7 +220,9 @@ func (gw *inclusiveGateway) NextAction(ctx context.Context, flow Flow) chan IAct
 		go gw.run(ctx, sender)
 	})
 
-	response := make(chan IAction)
+	// buffered: the gateway answers exactly once per request and must not
+	// block on a flow that has gone (instance cancelled)
+	response := make(chan IAction, 1)
 	gw.mch <- nextActionMessage{response: response, flow: flow}
 	return response
 }
